@@ -183,6 +183,8 @@ def raised_on_late_result_after_resume(ex):
     that was delivered while a later run of the same trial is current?"""
     from syne_tune.constants import ST_WORKER_TIMESTAMP
     backend = ex.backend
+    if not hasattr(backend, "truth"):
+        return False   # simulator-backed executions have no 'late' outputs (their stale deliveries are judged under C10)
     by_ts = {}
     for t, lst in backend.metrics.items():
         for m, (r, i, late) in zip(lst, backend.truth[t]):
